@@ -506,7 +506,11 @@ def check(pid, tier, seed, replay=None):
         "wall_s": round(wall, 2),
         "violations": violations,
     }
-    write_json(os.path.join(VERIF, "evidence", pid + ".json"), ev)
+    if os.path.realpath(REPO) == "/repo":
+        write_json(os.path.join(VERIF, "evidence", pid + ".json"), ev)
+    else:
+        # a run against a scratch tree (VERIF_REPO) must not replace the evidence of /repo
+        write_json(os.path.join(BUILD, pid, "evidence-scratch-tree.json"), ev)
     for l in lines:
         print(l)
     summary = "%s tier=%s seed=%d theorems=%d/%d cases=%d disagreements=%d oracle=%s/%s wall=%.1fs" % (
